@@ -15,6 +15,7 @@ type RecoveryOptions struct {
 
 	// MaxMemTables is the maximum number of MemTables to create during recovery
 	// If more MemTables would be needed, an error is returned
+	// Zero means no limit
 	MaxMemTables int
 
 	// MemTableSize is the maximum size of each MemTable
@@ -25,7 +26,7 @@ type RecoveryOptions struct {
 func DefaultRecoveryOptions(cfg *config.Config) *RecoveryOptions {
 	return &RecoveryOptions{
 		MaxSequenceNumber: ^uint64(0), // Max uint64
-		MaxMemTables:      cfg.MaxMemTables,
+		MaxMemTables:      0,          // No limit: logged writes must never be dropped, surplus tables get flushed
 		MemTableSize:      cfg.MemTableSize,
 	}
 }
@@ -59,7 +60,7 @@ func RecoverFromWAL(cfg *config.Config, opts *RecoveryOptions) ([]*MemTable, uin
 		// Check if we should create a new memtable based on size
 		if current.ApproximateSize() >= opts.MemTableSize {
 			// Make sure we don't exceed the max number of memtables
-			if len(memTables) >= opts.MaxMemTables {
+			if opts.MaxMemTables > 0 && len(memTables) >= opts.MaxMemTables {
 				return fmt.Errorf("maximum number of memtables (%d) exceeded during recovery", opts.MaxMemTables)
 			}
 
